@@ -204,16 +204,21 @@ def real_now():
     return _REAL["monotonic"]()
 
 
+def _clip(m):
+    """Messages that quote a long source keep their head and their tail (where the reason is)."""
+    return m if len(m) <= 300 else m[:180] + " ... " + m[-115:]
+
+
 def describe_exc(e):
     if isinstance(e, JSError):
-        d = {"cls": type(e).__name__, "name": getattr(e, "name", None), "msg": str(getattr(e, "message", ""))[:300],
+        d = {"cls": type(e).__name__, "name": getattr(e, "name", None), "msg": _clip(str(getattr(e, "message", ""))),
              "kind": "js"}
         if isinstance(e, JSSyntaxError):
             d["line"], d["col"] = e.line, e.column
         if type(e) not in (JSError, JSSyntaxError, MemoryLimitError, TimeLimitError) and not isinstance(e, JSError):
             d["kind"] = "host"
         return d
-    return {"cls": type(e).__name__, "msg": str(e)[:300], "kind": "host", "site": escape_site(e)}
+    return {"cls": type(e).__name__, "msg": _clip(str(e)), "kind": "host", "site": escape_site(e)}
 
 
 def new_context(tl=None, ml=None, quiet=True):
